@@ -217,6 +217,10 @@ theorem evolve_append (q : Path) (o : Option Node) (a b : List FOp) :
     evolve q o (a ++ b) = evolve q (evolve q o a) b := by
   simp [evolve, List.foldl_append]
 
+theorem ops_nil : ops [] = [] := rfl
+theorem ops_cons (c : Call) (r : List Call) : ops (c :: r) = c.op :: ops r := rfl
+theorem ops_append (a b : List Call) : ops (a ++ b) = ops a ++ ops b := by simp [ops]
+
 /-- Paths whose entry a call can change. -/
 def touch : FOp → List Path
   | .mkdir p => [p]
